@@ -9,7 +9,7 @@ TRUST = ('Trusted: rustc MIR lowering (nightly dump vs stable binary), z3, the s
 CHECKS = {
  'C15': ('Bounded symbolic execution of the real MIR of normpath/LazyBuf/OsBytes/relpath/realdirpath/abs_path: for EVERY byte string up to the length bound z3 shows idempotence, canonical form, location preservation, relpath == reference key, and re-join. Nothing is claimed beyond the bounds, about symlinked directories, or about two spellings on one parallel command line.',
          'World: no symlinks; canonicalize = NotFound | lexical identity; cwd /c/w. ' + TRUST, 'DESIGN.md §5 C15'),
- 'C08': ('Bounded symbolic execution of the real jobserver MIR (block_on, ServerState, start, wait_all, ensure_token_or_cheat coroutine, do_force_return_tokens) driven by the call patterns of builder::run over an environment model in which every number of child exits, token arrival/theft, cheating children, select timeouts and cheat answers per wake-up is explored; the token ledger (pipe + other holders - cheat bytes + own) is decided on every path; ServerState methods additionally from an arbitrary symbolic state. builder::run itself is not executed.',
+ 'C08': ('Bounded symbolic execution of the real jobserver MIR (block_on, ServerState, start, wait_all, ensure_token_or_cheat coroutine, do_force_return_tokens) driven by the call patterns of builder::run over an environment model in which every number of child exits, token arrival/theft, cheating children, select timeouts and cheat answers per wake-up is explored; the token ledger (pipe + other holders - cheat bytes + own) is decided on every path; ServerState methods additionally from an arbitrary symbolic state; JobServer::setup (which token / cheat pipe, how many tokens) for every -j and inherited MAKEFLAGS / REDO_CHEATFDS; the cheat callback of builder::run. builder::run itself is not executed.',
          'Environment contract and bounds are in evidence.assumptions/bounds. ' + TRUST, 'DESIGN.md §5 C08'),
  'C09': ('Same exploration as C08, judged for aborts (every panic/assert/overflow/borrow error inside the jobserver code), for block_on giving up with "JobServer deadlock" and for select() blocking with nothing that can ever become ready. Claimed for the jobserver state machine under call sequences that respect its documented preconditions; lock hand-over between processes and the scheduling inside builder::run are outside.',
          'Environment contract and bounds are in evidence.assumptions/bounds. ' + TRUST, 'DESIGN.md §5 C09'),
@@ -19,7 +19,7 @@ CHECKS.update({
  'C01': ('For EVERY state of the Files/Deps tables and the filesystem over N files (every column symbolic, every edge shape incl. cycles, created-mode edges and the ALWAYS pseudo-file) the verdict of the real deps::is_dirty - executed from its MIR together with the real File methods and the SQL text they issue - equals the documented dirtiness semantics, so a file that is failed / never built / older than a dependency / different on disk / above a dirty dependency is never answered Clean; plus: redo-unlocked re-evaluates the primary target under the caller\'s lock. Histories, concurrency and the scheduling in builder::run are outside.', DEPS_NOTE, 'DESIGN.md §5 C01'),
  'C02': ('Kernel agreement as in C01 (no over- and no under-reporting w.r.t. the reference semantics), a quiescent state is answered Clean and a file checked in this run is answered without touching the disk, and the two-phase replacement of a target\'s dependency list (zap_deps1 / add_dep / zap_deps2 through the real SQL text) leaves exactly the declared edges, or the old ones if the job never finished. Which .do processes actually start is decided in builder::run and is outside.', DEPS_NOTE, 'DESIGN.md §5 C02'),
  'C03': ('Kernel agreement incl. the uncertain verdict (NeedTargets) for checksummed targets at depth 1..N, ifchange::should_build\'s handling of it, redo-stamp\'s changed-vs-checked marking for equal / different digests, and the out-of-band path re-evaluating the primary target. SHA-1 itself and process plumbing are outside.', DEPS_NOTE, 'DESIGN.md §5 C03'),
- 'C05': ('Kernel only: a failed target is never Clean (kernel agreement), set_failed records the failure in the current run and keeps is_generated iff the file still exists, ifchange::should_build refuses a target that already failed in this run with exit 32. The stop / keep-going scheduling in builder::run is NOT claimed.', DEPS_NOTE, 'DESIGN.md §5 C05'),
+ 'C05': ('Kernel only: a failed target is never Clean (kernel agreement), set_failed records the failure in the current run and keeps is_generated iff the file still exists, ifchange::should_build refuses a target that already failed in this run with exit 32, the job completion blocks of builder::run turn every non-zero status (symbolic i32, negative for signals) into an error, scripts run under sh -e for every -v/-x combination. The stop / keep-going scheduling in builder::run is NOT claimed.', DEPS_NOTE, 'DESIGN.md §5 C05'),
  'C12': ('Detectors only: the recorded-graph walk reports CyclicDependency exactly on the cycles it reaches (kernel agreement over all graphs on N files), cycles::add/check through the real REDO_CYCLES encoding, and Lock::try_lock / wait_lock consult it before any fcntl. Bounded-time termination of blocked processes is NOT claimed.', DEPS_NOTE, 'DESIGN.md §5 C12'),
  'C14': ('Kernel agreement incl. created-mode edges (dirty iff the path exists) and the ALWAYS pseudo-file (changed in every run); redo-ifcreate refuses an existing path and otherwise commits a created-mode edge; redo-always commits an edge to ALWAYS and stamps it changed in this run. "Exactly once per run with several parallel dependents" is NOT claimed.', DEPS_NOTE, 'DESIGN.md §5 C14'),
  'C17': ('is_source / is_target never both, pseudo files neither, existing non-generated file is a source, generated file as recorded is a target (every row x filesystem state); redo-ood runs the same kernel (agreement as in C01) and leaves every row as it found it (no commit). The over-approximation bounds relative to the builder are argued from the shared kernel, not separately decided.', DEPS_NOTE, 'DESIGN.md §5 C17'),
